@@ -11,13 +11,17 @@
 
 #include "output.h"
 
-static void deregisterCommand(const _MPT_ARRAY_TYPE(command) *wait, uintptr_t id)
+static void deregisterCommand(MPT_STRUCT(connection) *con)
 {
 	MPT_STRUCT(command) *ans;
 	
-	if ((ans = mpt_command_get(wait, id))) {
-		ans->cmd(ans->arg, 0);
+	if ((ans = mpt_command_get(&con->_wait, con->cid))) {
+		int (*cancel)(void *, void *) = ans->cmd;
+		/* no reply will be accepted for failed request */
+		ans->cmd = 0;
+		cancel(ans->arg, 0);
 	}
+	con->cid = 0;
 }
 
 /*!
@@ -64,7 +68,7 @@ extern ssize_t mpt_connection_push(MPT_STRUCT(connection) *con, size_t len, cons
 				if (ret < con->out._idlen) {
 					mpt_stream_push(srm, 1, 0);
 					if (con->cid) {
-						deregisterCommand(&con->_wait, con->cid);
+						deregisterCommand(con);
 					}
 					return MPT_ERROR(MissingBuffer);
 				} else {
@@ -75,7 +79,7 @@ extern ssize_t mpt_connection_push(MPT_STRUCT(connection) *con, size_t len, cons
 		/* use socket backend (has atomic guarantee for ID setup) */
 		else if ((ret = mpt_outdata_push(&con->out, con->out._idlen, buf)) < 0) {
 			if (con->cid) {
-				deregisterCommand(&con->_wait, con->cid);
+				deregisterCommand(con);
 			}
 			return ret;
 		}
@@ -109,7 +113,7 @@ extern ssize_t mpt_connection_push(MPT_STRUCT(connection) *con, size_t len, cons
 	}
 	if (ret < 0 && con->cid) {
 		/* clear pending reply */
-		deregisterCommand(&con->_wait, con->cid);
+		deregisterCommand(con);
 	}
 	return ret;
 }
